@@ -141,6 +141,8 @@ def gen(rng, n, tier):
             continue
         if any(F(v) == 0 for v in c.get("pop", [])) and rng.chance(0.15):
             c["init"]["negzero"] = True
+        if rng.chance(0.1):
+            c["init"]["via_copy"] = True       # the test object is a deep copy of a template re-configured afterwards
         yield c
         k += 1
     # additional streams (about n/4 cases):
